@@ -1232,8 +1232,14 @@ class Engine(object):
     def st_For(self, st, env):
         key = self.loop_key(st, env)
         if key in self.loop_handlers:
-            return self.loop_handlers[key](self, st, env)
+            try:
+                return self.loop_handlers[key](self, st, env)
+            except (_Break, _Continue):
+                raise Unsupported("break / continue escaping the loop summary of %s" % key)
         it = self.eval(st.iter, env)
+        if isinstance(it, SList) or (isinstance(it, tuple) and len(it) == 2 and it[0] == "enumerate"
+                                     and isinstance(it[1], SList)):
+            return self.summarise_selection_loop(st, env, it, key)
         if isinstance(it, Sym):
             raise Unsupported("loop over symbolic %r needs an invariant (%s)" % (it, key))
         items = self.iterate(it)
@@ -1249,6 +1255,67 @@ class Engine(object):
                 continue
         if not broke:
             self.exec_block(st.orelse, env)
+
+    def summarise_selection_loop(self, st, env, it, key):
+        """A loop over a list of symbolic length whose body only selects / maps into one accumulator,
+
+            for x in xs:                 for x in xs:                  for x in xs:
+                if c(x):                     if not c(x):                  acc.append(f(x))
+                    acc.append(f(x))             continue
+                                             acc.append(f(x))
+
+        is the list comprehension acc + [f(x) for x in xs if c(x)] (exact: the body has no other
+        effect).  Any other loop over a symbolic list needs a registered loop summary."""
+        from . import seqlib
+
+        def append_of(stmt):
+            if (isinstance(stmt, ast.Expr) and isinstance(stmt.value, ast.Call)
+                    and isinstance(stmt.value.func, ast.Attribute) and stmt.value.func.attr == "append"
+                    and isinstance(stmt.value.func.value, ast.Name) and len(stmt.value.args) == 1
+                    and not stmt.value.keywords):
+                return stmt.value.func.value.id, stmt.value.args[0]
+            return None
+
+        body, conds, acc = list(st.body), [], None
+        if st.orelse:
+            body = None
+        while body:
+            if len(body) == 1 and append_of(body[0]):
+                acc = append_of(body[0])
+                break
+            if len(body) == 1 and isinstance(body[0], ast.If) and not body[0].orelse:
+                conds.append(body[0].test)
+                body = list(body[0].body)
+                continue
+            if (len(body) >= 2 and isinstance(body[0], ast.If) and not body[0].orelse
+                    and len(body[0].body) == 1 and isinstance(body[0].body[0], ast.Continue)):
+                conds.append(ast.UnaryOp(op=ast.Not(), operand=body[0].test))
+                body = body[1:]
+                continue
+            break
+        if acc is None:
+            raise Unsupported("loop over a list of symbolic length needs an invariant (%s)" % key)
+        acc_name, elt = acc
+        before = env.lookup(acc_name)
+        if not isinstance(before, (list, SList)):
+            raise Unsupported("accumulator of the loop over a symbolic list is not a list (%s)" % key)
+        gen = ast.comprehension(target=st.target, iter=st.iter, ifs=conds, is_async=0)
+        comp = ast.ListComp(elt=elt, generators=[gen])
+        ast.copy_location(comp, st)
+        ast.fix_missing_locations(comp)
+        selected = seqlib.slist_comprehension(self, comp, gen, it, env)
+        if isinstance(before, list) and not before:
+            result = selected
+        else:
+            result = seqlib.concat(self, before, selected)
+        e_ = env
+        while e_ is not None and acc_name not in e_.locals:
+            e_ = e_.parent
+        (e_ or env).locals[acc_name] = result
+        # the loop variables have no defined value after a summarised loop
+        for nm in ast.walk(st.target):
+            if isinstance(nm, ast.Name):
+                env.locals[nm.id] = AbstractObj("loop variable %s after the summarised loop %s" % (nm.id, key))
 
     def st_While(self, st, env):
         key = self.loop_key(st, env)
@@ -1808,8 +1875,22 @@ class Engine(object):
         if (isinstance(n.func, ast.Attribute) and isinstance(n.func.value, ast.Call)
                 and isinstance(n.func.value.func, ast.Name) and n.func.value.func.id == "super"):
             sargs = [self.eval(a, env) for a in n.func.value.args]
+            if len(sargs) == 0:
+                # zero-argument form: the class the running method is defined in, and its first parameter
+                fdef, qn = env.func_def, env.func_name or ""
+                if fdef is None or "." not in qn or not fdef.args.args:
+                    raise Unsupported("zero-argument super() outside a method")
+                owner = None
+                for part in qn.rsplit(".", 1)[0].split("."):
+                    if part == "<locals>":
+                        owner = None
+                        break
+                    owner = env.globals.get(part) if owner is None else getattr(owner, part, None)
+                if not isinstance(owner, type):
+                    raise Unsupported("zero-argument super(): class of %s not found" % qn)
+                sargs = [owner, env.lookup(fdef.args.args[0].arg)]
             if len(sargs) != 2:
-                raise Unsupported("zero-argument super()")
+                raise Unsupported("one-argument super()")
             cls, obj = sargs
             mro = type(obj).__mro__
             nxt = mro[mro.index(cls) + 1:]
